@@ -163,7 +163,7 @@ pub fn run(cfg: &RunCfg) -> PropRun {
     let mut run = PropRun::default();
     run.rule = "triples (A, B, C) of expression trees (depth <= 1 each, leaves as in C07) combined into 15 composite trees of depth <= 3 (A∩B, B∩A, (A∩B)∩C, A∩(B∩C), A∩A, A\\A, A\\B, (A\\B)∩B, (A∩B)∩(A\\B), A\\(A\\B), (A\\B)\\C, (A∩B)\\C, A\\(B∩C), A\\(B\\C), C∩(A\\B)), all evaluated with the crate. Oracle: membership in the bounds of every composite value (and satisfies() for release probes) at ~40 probes around every bound occurring anywhere in the trees must equal the boolean evaluation of the tree from the *leaves'* interval models - this decides commutativity, associativity, idempotence, A\\A = (A\\B)∩B = ∅, the disjoint-union partition and A\\(A\\B) = A∩B at once; every result must print, re-parse to a pointwise-equal range and work as an operand again. Non-trivial = a composite of depth >= 2 with a non-empty result whose leaves share a bound version; distinct by the three trees.".into();
     run.assumptions = vec!["printed results with a component above MAX_SAFE_INTEGER are finding D11 (re-parse step skipped, counted)".into()];
-    let out = campaign(cfg, ID, "trees", cfg.pick(60_000, 1_500_000), strategy, check_case);
+    let out = campaign(cfg, ID, "trees", cfg.pick(100_000, 1_500_000), strategy, check_case);
     run.absorb(out);
     run
 }
